@@ -1103,14 +1103,17 @@ def serializer_flags(prog):
     # root into a node, say) must take the complement bit from the helper's result: a terminal (False, a negative literal)
     # already carries its negation, and a flag derived again from the SddPtr negates it a second time
     for ent, adt_ in (("from_sdd", "serialize::ser_sdd::SDDSerializer"), ("from_bdd", "serialize::ser_bdd::BDDSerializer")):
-        es = [f for f in prog.lib_fns if f.name == ent and f.impl_self == adt_]
+        # the entry point, or the sibling it hands its argument to (`from_bdd(b)` = `from_bdds(&[b])`): whichever calls the helper
+        es = [f for f in prog.lib_fns if f.impl_self == adt_ and f.name != "serialize_helper" and "{closure" not in f.npath and
+              any(cs.callee.name == "serialize_helper" for g in [f] + [h for h in prog.lib_fns if h.npath.startswith(f.npath + "::{closure")]
+                  for cs in g.terms.calls)]
         if len(es) != 1:
+            out.append(inst("CP", "%s::%s:root-is-helper-result" % (adt_, ent), UNDECIDED, None, None,
+                            "%d functions of the serialiser call serialize_helper" % len(es)))
             continue
         e = es[0]
+        ent = e.name
         errs_r = []
-        hcalls = [cs for cs in e.terms.calls if cs.callee.name == "serialize_helper"]
-        if not hcalls:
-            errs_r.append("?%s does not call serialize_helper" % ent)
         for bb, t, line in e.terms.aggs:
             if t[3] == "Ptr" and t[5] and "compl" in t[5]:
                 fl = strip(t[4][t[5].index("compl")])
